@@ -41,6 +41,12 @@ Proof.
     + intros x Hx. apply IH. rewrite forallb_forall in H2. auto.
     + intros ->. apply andb_true_iff in H3. destruct H3 as [Hz Hd]. split; [assumption|].
       destruct data as [|x [|y r]]; try discriminate. exists x. reflexivity.
+  - destruct v; try discriminate.
+    apply andb_true_iff in H. destruct H as [H H3]. apply andb_true_iff in H. destruct H as [H1 H2].
+    assert (k = k0) by (destruct k, k0; try discriminate; reflexivity). subst k0.
+    constructor.
+    + intros x Hx. apply IH. rewrite forallb_forall in H2. auto.
+    + destruct shape; [discriminate|discriminate].
   - destruct v; try discriminate. apply andb_true_iff in H. destruct H as [H1 H2]. constructor; [|assumption].
     intros x Hx. apply IH. rewrite forallb_forall in H1. auto.
   - destruct v; try discriminate. apply andb_true_iff in H. destruct H as [H H3].
@@ -174,12 +180,20 @@ Qed.
 Lemma uniqueb_short : forall l : list json, (List.length l <= 1)%nat -> uniqueb l = true.
 Proof. intros [|x [|y r]] H; simpl in *; try reflexivity. lia. Qed.
 
-Ltac arr_fix := try (rewrite emit_arr by (eapply arr_shape_false; eassumption)); try rewrite emit_model.
+Lemma arr_nonempty : forall (z : bool) (sh : list N) (data : list pval),
+   z = false -> (sh = [] -> z = true /\ exists x, data = [x]) -> sh <> [].
+Proof. intros z sh data Hz H E. destruct (H E) as [Ht _]. congruence. Qed.
 
-Lemma leaf_compat_sound : forall env D v k S,
-  Inh false env D v -> kind_of D = Some k -> leaf_compat D k S = true -> leaf_check S (emit v) = true.
+Ltac arr_ne := first [ assumption | eapply arr_shape_false; eassumption | eapply arr_nonempty; eassumption ].
+Ltac arr_fix := try (rewrite emit_arr by arr_ne); try rewrite emit_model.
+
+Lemma leaf_compat_sound : forall z env D v k S,
+  Inh z env D v -> (is_tarr D = true -> z = false) ->
+  kind_of D = Some k -> leaf_compat D k S = true -> leaf_check S (emit v) = true.
 Proof.
-  intros env D v k S HI HK HL.
+  intros z env D v k S HI Hz HK HL.
+  assert (Hz' : match D with TArr _ => z = false | _ => True end) by (destruct D; try exact I; apply Hz; reflexivity).
+  clear Hz.
   destruct S; unfold leaf_compat in HL; try discriminate.
   - (* SType *)
     inversion HI; subst; simpl in HK; try discriminate; injection HK as <-;
@@ -200,6 +214,7 @@ Proof.
       destruct rs; try discriminate; reflexivity.
   - (* SMinItems *)
     inversion HI; subst; simpl in HK; try discriminate; injection HK as <-; arr_fix; simpl in *; try reflexivity.
+    + apply N.eqb_eq in HL. subst. apply N.leb_le. lia.
     + apply N.eqb_eq in HL. subst. apply N.leb_le. lia.
     + rewrite map_length. unfold len_ok in *. apply N.leb_le in HL. apply N.leb_le.
       match goal with E : _ && _ = true |- _ => apply andb_true_iff in E; destruct E as [E1 E2] end.
@@ -244,37 +259,38 @@ Proof.
       try discriminate; try reflexivity; unfold leaf_check, emit, num_of; apply int_multiple_of_one; assumption.
 Qed.
 Section Sound.
+Variable z : bool.
 Variable env : env_t.
 Variable defs : defs_t.
 
 Section Step.
 Variable n : nat.
-Hypothesis IH : forall D S, compat env defs n D S = true -> forall v, Inh false env D v -> Valid defs S (emit v).
+Hypothesis IH : forall D S, compat z env defs n D S = true -> forall v, Inh z env D v -> Valid defs S (emit v).
 
-Lemma step_union : forall ts S v, forallb (fun t => compat env defs n t S) ts = true ->
-                                  Inh false env (TUnion ts) v -> Valid defs S (emit v).
+Lemma step_union : forall ts S v, forallb (fun t => compat z env defs n t S) ts = true ->
+                                  Inh z env (TUnion ts) v -> Valid defs S (emit v).
 Proof.
   intros ts S v H HI. inversion HI; subst. rewrite forallb_forall in H. eapply IH; eauto.
 Qed.
 
 Lemma step_opt : forall t S v,
-    compat env defs n t S && outcome_eqb Bool.eqb (validates n defs S JNull) (Ok true) = true ->
-    Inh false env (TOpt t) v -> Valid defs S (emit v).
+    compat z env defs n t S && outcome_eqb Bool.eqb (validates n defs S JNull) (Ok true) = true ->
+    Inh z env (TOpt t) v -> Valid defs S (emit v).
 Proof.
   intros t S v H HI. apply andb_true_iff in H. destruct H as [H1 H2]. inversion HI; subst.
   - simpl. destruct (validates n defs S JNull) as [[|]|] eqn:E; simpl in H2; try discriminate. eapply validates_sound; exact E.
   - eapply IH; eauto.
 Qed.
 
-Lemma step_anyof : forall D l v, existsb (compat env defs n D) l = true -> Inh false env D v ->
+Lemma step_anyof : forall D l v, existsb (compat z env defs n D) l = true -> Inh z env D v ->
                                  Valid defs (SAnyOf l) (emit v).
 Proof.
   intros D l v H HI. apply existsb_exists in H. destruct H as [s [Hs1 Hs2]].
   eapply V_any; [exact Hs1|]. eapply IH; eauto.
 Qed.
 
-Lemma step_leaf : forall D k S v, kind_of D = Some k -> leaf_compat D k S = true -> Inh false env D v ->
-                                  Valid defs S (emit v).
+Lemma step_leaf : forall D k S v, (is_tarr D = true -> z = false) -> kind_of D = Some k -> leaf_compat D k S = true ->
+                                  Inh z env D v -> Valid defs S (emit v).
 Proof. intros. apply V_leaf. eapply leaf_compat_sound; eassumption. Qed.
 
 Lemma entry_schema_cases : forall ps ap k s, entry_schema ps ap k = Some s ->
@@ -286,8 +302,8 @@ Proof.
 Qed.
 
 Lemma step_obj_dict : forall t ps ap v,
-    forallb (fun p => compat env defs n t (snd p)) ps && match ap with Some s => compat env defs n t s | None => true end = true ->
-    Inh false env (TDict t) v -> Valid defs (SObj ps ap) (emit v).
+    forallb (fun p => compat z env defs n t (snd p)) ps && match ap with Some s => compat z env defs n t s | None => true end = true ->
+    Inh z env (TDict t) v -> Valid defs (SObj ps ap) (emit v).
 Proof.
   intros t ps ap v H HI. apply andb_true_iff in H. destruct H as [H1 H2]. inversion HI; subst. simpl.
   apply V_obj. intros k jv s Hin He. apply in_map_iff in Hin. destruct Hin as [[k' v'] [E Hin]].
@@ -300,16 +316,16 @@ Qed.
 Lemma step_obj_model : forall name m ps ap v,
     assoc name env = Some m ->
     forallb (fun f => match entry_schema ps ap (f_alias f) with
-                      | Some s => compat env defs n (f_type f) s
+                      | Some s => compat z env defs n (f_type f) s
                       | None => true
                       end) (m_fields m) &&
     (negb (m_extra m) ||
-     (match ap with Some s => compat env defs n TAny s | None => true end &&
+     (match ap with Some s => compat z env defs n TAny s | None => true end &&
       forallb (fun p => match find_field (fst p) (m_fields m) with
                         | Some _ => true
-                        | None => compat env defs n TAny (snd p)
+                        | None => compat z env defs n TAny (snd p)
                         end) ps)) = true ->
-    Inh false env (TModel name) v -> Valid defs (SObj ps ap) (emit v).
+    Inh z env (TModel name) v -> Valid defs (SObj ps ap) (emit v).
 Proof.
   intros name m ps ap v Hm H HI. apply andb_true_iff in H. destruct H as [H1 H2].
   inversion HI; subst. rewrite emit_model. apply V_obj. intros k jv s Hin He.
@@ -334,7 +350,7 @@ Lemma step_required_model : forall name m rs v,
                       | Some f => f_required f && negb (f_nullable f) && negb (can_none (f_type f))
                       | None => false
                       end) rs = true ->
-    Inh false env (TModel name) v -> Valid defs (SRequired rs) (emit v).
+    Inh z env (TModel name) v -> Valid defs (SRequired rs) (emit v).
 Proof.
   intros name m rs v Hm H HI. inversion HI; subst.
   match goal with Hm' : assoc name env = Some _ |- _ => rewrite Hm in Hm'; inversion Hm'; subst end.
@@ -352,37 +368,53 @@ Proof.
   - eapply can_none_sound; eassumption.
 Qed.
 
-Lemma step_items_list : forall t mn mx s v, compat env defs n t s = true -> Inh false env (TList t mn mx) v ->
+Lemma step_items_list : forall t mn mx s v, compat z env defs n t s = true -> Inh z env (TList t mn mx) v ->
                                             Valid defs (SItems s) (emit v).
 Proof.
   intros t mn mx s v H HI. inversion HI; subst. simpl. apply V_items. intros x Hx.
   apply in_map_iff in Hx. destruct Hx as [y [<- Hy]]. eapply IH; eauto.
 Qed.
 
-Lemma step_items_listu : forall t mn mx s v, compat env defs n t s = true -> Inh false env (TListU t mn mx) v ->
+Lemma step_items_listu : forall t mn mx s v, compat z env defs n t s = true -> Inh z env (TListU t mn mx) v ->
                                              Valid defs (SItems s) (emit v).
 Proof.
   intros t mn mx s v H HI. inversion HI; subst. simpl. apply V_items. intros x Hx.
   apply in_map_iff in Hx. destruct Hx as [y [<- Hy]]. eapply IH; eauto.
 Qed.
 
-Lemma step_tuple_listu : forall t mn mx ss v, forallb (compat env defs n t) ss = true ->
-                                              Inh false env (TListU t mn mx) v -> Valid defs (SItemsTuple ss) (emit v).
+Lemma step_tuple_listu : forall t mn mx ss v, forallb (compat z env defs n t) ss = true ->
+                                              Inh z env (TListU t mn mx) v -> Valid defs (SItemsTuple ss) (emit v).
 Proof.
   intros t mn mx ss v H HI. inversion HI; subst. simpl. apply V_tuple. intros s x Hx.
   assert (Hs := in_combine_l _ _ _ _ Hx). apply in_combine_r in Hx.
   apply in_map_iff in Hx. destruct Hx as [y [<- Hy]]. rewrite forallb_forall in H. eapply IH; eauto.
 Qed.
 
-Lemma step_items_arr : forall k s v, compat env defs n (scalar_ty k) s = true -> Inh false env (TArr k) v ->
-                                     Valid defs (SItems s) (emit v).
+Lemma step_items_arrs : forall k s v, compat z env defs n (scalar_ty k) s = true -> Inh z env (TArrS k) v ->
+                                      Valid defs (SItems s) (emit v).
 Proof.
-  intros k s v H HI. inversion HI; subst. rewrite emit_arr by (eapply arr_shape_false; eassumption).
+  intros k s v H HI. inversion HI; subst. rewrite emit_arr by arr_ne.
   apply V_items. intros x Hx. apply in_map_iff in Hx. destruct Hx as [y [<- Hy]]. eapply IH; eauto.
 Qed.
 
-Lemma step_items_tuple : forall ts s v, forallb (fun t => compat env defs n t s) ts = true ->
-                                        Inh false env (TTuple ts) v -> Valid defs (SItems s) (emit v).
+Lemma step_tuple_arrs : forall k ss v, forallb (compat z env defs n (scalar_ty k)) ss = true ->
+                                       Inh z env (TArrS k) v -> Valid defs (SItemsTuple ss) (emit v).
+Proof.
+  intros k ss v H HI. inversion HI; subst. rewrite emit_arr by arr_ne.
+  apply V_tuple. intros s x Hx.
+  assert (Hs := in_combine_l _ _ _ _ Hx). apply in_combine_r in Hx.
+  apply in_map_iff in Hx. destruct Hx as [y [<- Hy]]. rewrite forallb_forall in H. eapply IH; eauto.
+Qed.
+
+Lemma step_items_arr : forall k s v, z = false -> compat z env defs n (scalar_ty k) s = true -> Inh z env (TArr k) v ->
+                                     Valid defs (SItems s) (emit v).
+Proof.
+  intros k s v Hz H HI. inversion HI; subst. rewrite emit_arr by arr_ne.
+  apply V_items. intros x Hx. apply in_map_iff in Hx. destruct Hx as [y [<- Hy]]. eapply IH; eauto.
+Qed.
+
+Lemma step_items_tuple : forall ts s v, forallb (fun t => compat z env defs n t s) ts = true ->
+                                        Inh z env (TTuple ts) v -> Valid defs (SItems s) (emit v).
 Proof.
   intros ts s v H HI. inversion HI; subst. simpl. apply V_items. intros x Hx.
   apply in_map_iff in Hx. destruct Hx as [y [<- Hy]].
@@ -390,42 +422,58 @@ Proof.
   rewrite forallb_forall in H. eapply IH; eauto.
 Qed.
 
-Lemma step_tuple_list : forall t mn mx ss v, forallb (compat env defs n t) ss = true ->
-                                             Inh false env (TList t mn mx) v -> Valid defs (SItemsTuple ss) (emit v).
+Lemma step_tuple_list : forall t mn mx ss v, forallb (compat z env defs n t) ss = true ->
+                                             Inh z env (TList t mn mx) v -> Valid defs (SItemsTuple ss) (emit v).
 Proof.
   intros t mn mx ss v H HI. inversion HI; subst. simpl. apply V_tuple. intros s x Hx.
   assert (Hs := in_combine_l _ _ _ _ Hx). apply in_combine_r in Hx.
   apply in_map_iff in Hx. destruct Hx as [y [<- Hy]]. rewrite forallb_forall in H. eapply IH; eauto.
 Qed.
 
-Lemma step_tuple_arr : forall k ss v, forallb (compat env defs n (scalar_ty k)) ss = true ->
-                                      Inh false env (TArr k) v -> Valid defs (SItemsTuple ss) (emit v).
+Lemma step_tuple_arr : forall k ss v, z = false -> forallb (compat z env defs n (scalar_ty k)) ss = true ->
+                                      Inh z env (TArr k) v -> Valid defs (SItemsTuple ss) (emit v).
 Proof.
-  intros k ss v H HI. inversion HI; subst. rewrite emit_arr by (eapply arr_shape_false; eassumption).
+  intros k ss v Hz H HI. inversion HI; subst. rewrite emit_arr by arr_ne.
   apply V_tuple. intros s x Hx.
   assert (Hs := in_combine_l _ _ _ _ Hx). apply in_combine_r in Hx.
   apply in_map_iff in Hx. destruct Hx as [y [<- Hy]]. rewrite forallb_forall in H. eapply IH; eauto.
 Qed.
 
 Lemma step_tuple_tuple : forall ts ss v,
-    forallb (fun p => compat env defs n (fst p) (snd p)) (combine ts ss) = true ->
-    Inh false env (TTuple ts) v -> Valid defs (SItemsTuple ss) (emit v).
+    forallb (fun p => compat z env defs n (fst p) (snd p)) (combine ts ss) = true ->
+    Inh z env (TTuple ts) v -> Valid defs (SItemsTuple ss) (emit v).
 Proof.
   intros ts ss v H HI. inversion HI; subst. simpl. apply V_tuple. intros s x Hx.
   match goal with HF : Forall2 _ ts l |- _ => destruct (combine_tuple _ _ _ _ HF _ _ _ Hx) as [t [y [Ht1 [Ht2 ->]]]] end.
   rewrite forallb_forall in H. eapply IH; [exact (H (t, s) Ht1)|assumption].
 Qed.
 
+Lemma step_arr0 : forall k S v,
+    compat z env defs n (TArrS k) S && compat z env defs n (scalar_ty k) S = true ->
+    Inh z env (TArr k) v -> Valid defs S (emit v).
+Proof.
+  intros k S v H HI. apply andb_true_iff in H. destruct H as [Ha Hs]. inversion HI; subst.
+  destruct sh as [|d sh].
+  - match goal with H0 : [] = [] -> _ |- _ => destruct (H0 eq_refl) as [_ [x ->]] end.
+    simpl. eapply (IH (scalar_ty k)); [exact Hs|]. match goal with Hd : forall x, In x _ -> _ |- _ => apply Hd; left; reflexivity end.
+  - assert (HS : Inh z env (TArrS k) (PArr k (d :: sh) data)) by (constructor; [assumption|discriminate]).
+    eapply (IH (TArrS k)); [exact Ha|exact HS].
+Qed.
+
 End Step.
 
 Ltac other_kind HI ctor :=
-  inversion HI; subst; try (rewrite emit_arr by (eapply arr_shape_false; eassumption)); try rewrite emit_model;
+  try (match goal with Hz : is_tarr _ = true -> _ = false |- _ => specialize (Hz eq_refl) end);
+  inversion HI; subst; try (rewrite emit_arr by arr_ne); try rewrite emit_model;
   apply ctor; reflexivity.
 
-Theorem compat_sound : forall n D S, compat env defs n D S = true ->
-                                     forall v, Inh false env D v -> Valid defs S (emit v).
+Theorem compat_sound : forall n D S, compat z env defs n D S = true ->
+                                     forall v, Inh z env D v -> Valid defs S (emit v).
 Proof.
   induction n as [|n IH]; intros D S H v HI; simpl in H; [discriminate|].
+  destruct (z && is_tarr D) eqn:G.
+  { destruct D; try (simpl in G; rewrite andb_false_r in G; discriminate). eapply step_arr0; eassumption. }
+  assert (Hz : is_tarr D = true -> z = false) by (intros Ht; rewrite Ht, andb_true_r in G; exact G).
   destruct S.
   - (* SAll *) apply V_all. intros s Hs. rewrite forallb_forall in H. eapply IH; eauto.
   - (* SAnyOf *)
@@ -433,13 +481,13 @@ Proof.
       [eapply step_opt; eassumption | eapply step_union; eassumption].
   - (* SRef *) destruct (assoc name defs) as [s|] eqn:E; [|discriminate]. eapply V_ref; [exact E|]. eapply IH; eauto.
   - (* SType *)
-    destruct D; try discriminate; try (match type of HI with Inh _ _ ?D0 _ => eapply (step_leaf D0); [reflexivity|exact H|exact HI] end);
+    destruct D; try discriminate; try (match type of HI with Inh _ _ ?D0 _ => eapply (step_leaf D0); [exact Hz|reflexivity|exact H|exact HI] end);
       [eapply step_opt; eassumption | eapply step_union; eassumption].
   - (* SEnum *)
-    destruct D; try discriminate; try (match type of HI with Inh _ _ ?D0 _ => eapply (step_leaf D0); [reflexivity|exact H|exact HI] end);
+    destruct D; try discriminate; try (match type of HI with Inh _ _ ?D0 _ => eapply (step_leaf D0); [exact Hz|reflexivity|exact H|exact HI] end);
       [eapply step_opt; eassumption | eapply step_union; eassumption].
   - (* SPattern *)
-    destruct D; try discriminate; try (match type of HI with Inh _ _ ?D0 _ => eapply (step_leaf D0); [reflexivity|exact H|exact HI] end);
+    destruct D; try discriminate; try (match type of HI with Inh _ _ ?D0 _ => eapply (step_leaf D0); [exact Hz|reflexivity|exact H|exact HI] end);
       [eapply step_opt; eassumption | eapply step_union; eassumption].
   - (* SObj *)
     destruct D; try discriminate; try (other_kind HI V_obj_other).
@@ -448,13 +496,14 @@ Proof.
     + eapply step_union; eassumption.
     + destruct (assoc name env) as [m|] eqn:E; [|discriminate]. eapply step_obj_model; eassumption.
   - (* SRequired *)
-    destruct D; try discriminate; try (match type of HI with Inh _ _ ?D0 _ => eapply (step_leaf D0); [reflexivity|exact H|exact HI] end).
+    destruct D; try discriminate; try (match type of HI with Inh _ _ ?D0 _ => eapply (step_leaf D0); [exact Hz|reflexivity|exact H|exact HI] end).
     + eapply step_opt; eassumption.
     + eapply step_union; eassumption.
     + destruct (assoc name env) as [m|] eqn:E; [|discriminate]. eapply step_required_model; eassumption.
   - (* SItems *)
     destruct D; try discriminate; try (other_kind HI V_items_other).
-    + eapply step_items_arr; eassumption.
+    + eapply step_items_arr; try eassumption; apply Hz; reflexivity.
+    + eapply step_items_arrs; eassumption.
     + eapply step_items_list; eassumption.
     + eapply step_items_listu; eassumption.
     + eapply step_items_tuple; eassumption.
@@ -462,30 +511,241 @@ Proof.
     + eapply step_union; eassumption.
   - (* SItemsTuple *)
     destruct D; try discriminate; try (other_kind HI V_tuple_other).
-    + eapply step_tuple_arr; eassumption.
+    + eapply step_tuple_arr; try eassumption; apply Hz; reflexivity.
+    + eapply step_tuple_arrs; eassumption.
     + eapply step_tuple_list; eassumption.
     + eapply step_tuple_listu; eassumption.
     + eapply step_tuple_tuple; eassumption.
     + eapply step_opt; eassumption.
     + eapply step_union; eassumption.
-  - destruct D; try discriminate; try (match type of HI with Inh _ _ ?D0 _ => eapply (step_leaf D0); [reflexivity|exact H|exact HI] end);
+  - destruct D; try discriminate; try (match type of HI with Inh _ _ ?D0 _ => eapply (step_leaf D0); [exact Hz|reflexivity|exact H|exact HI] end);
       [eapply step_opt; eassumption | eapply step_union; eassumption].
-  - destruct D; try discriminate; try (match type of HI with Inh _ _ ?D0 _ => eapply (step_leaf D0); [reflexivity|exact H|exact HI] end);
+  - destruct D; try discriminate; try (match type of HI with Inh _ _ ?D0 _ => eapply (step_leaf D0); [exact Hz|reflexivity|exact H|exact HI] end);
       [eapply step_opt; eassumption | eapply step_union; eassumption].
-  - destruct D; try discriminate; try (match type of HI with Inh _ _ ?D0 _ => eapply (step_leaf D0); [reflexivity|exact H|exact HI] end);
+  - destruct D; try discriminate; try (match type of HI with Inh _ _ ?D0 _ => eapply (step_leaf D0); [exact Hz|reflexivity|exact H|exact HI] end);
       [eapply step_opt; eassumption | eapply step_union; eassumption].
-  - destruct D; try discriminate; try (match type of HI with Inh _ _ ?D0 _ => eapply (step_leaf D0); [reflexivity|exact H|exact HI] end);
+  - destruct D; try discriminate; try (match type of HI with Inh _ _ ?D0 _ => eapply (step_leaf D0); [exact Hz|reflexivity|exact H|exact HI] end);
       [eapply step_opt; eassumption | eapply step_union; eassumption].
-  - destruct D; try discriminate; try (match type of HI with Inh _ _ ?D0 _ => eapply (step_leaf D0); [reflexivity|exact H|exact HI] end);
+  - destruct D; try discriminate; try (match type of HI with Inh _ _ ?D0 _ => eapply (step_leaf D0); [exact Hz|reflexivity|exact H|exact HI] end);
       [eapply step_opt; eassumption | eapply step_union; eassumption].
-  - destruct D; try discriminate; try (match type of HI with Inh _ _ ?D0 _ => eapply (step_leaf D0); [reflexivity|exact H|exact HI] end);
+  - destruct D; try discriminate; try (match type of HI with Inh _ _ ?D0 _ => eapply (step_leaf D0); [exact Hz|reflexivity|exact H|exact HI] end);
       [eapply step_opt; eassumption | eapply step_union; eassumption].
 Qed.
 
 (** with the validator: it never rejects the emission of an inhabitant of a compatible descriptor *)
 Corollary compat_never_rejected : forall n m D S v,
-    compat env defs n D S = true -> Inh false env D v -> validates m defs S (emit v) <> Ok false.
+    compat z env defs n D S = true -> Inh z env D v -> validates m defs S (emit v) <> Ok false.
 Proof.
   intros n m D S v H HI Hf. exact (validates_complete _ _ _ _ Hf (compat_sound _ _ _ H _ HI)).
 Qed.
 End Sound.
+
+(** ** validity against the exported schema forces duplicate-free lists at the uniqueItems sites *)
+Lemma valid_true : forall defs j, Valid defs STrue j.
+Proof. intros. apply V_all. intros s []. Qed.
+
+Lemma members_valid : forall defs n S j, Valid defs S j -> forall s, In s (members defs n S) -> Valid defs s j.
+Proof.
+  induction n as [|n IH]; intros S j V s Hs; simpl in Hs; [contradiction|].
+  destruct S; try (destruct Hs as [<-|[]]; assumption).
+  - apply in_flat_map in Hs. destruct Hs as [x [Hx Hs]].
+    inversion V; subst; [|match goal with L : leaf_check _ _ = true |- _ => simpl in L; discriminate end].
+    eapply IH; [|exact Hs]. auto.
+  - destruct (assoc name defs) as [s0|] eqn:E; [|contradiction].
+    inversion V; subst; [|match goal with L : leaf_check _ _ = true |- _ => simpl in L; discriminate end].
+    match goal with Ha : assoc name defs = Some _ |- _ => rewrite E in Ha; inversion Ha; subst end.
+    eapply IH; eassumption.
+Qed.
+
+Lemma find_items_valid : forall defs ms l, (forall s, In s ms -> Valid defs s (JArr l)) ->
+                                           forall x, In x l -> Valid defs (find_items ms) x.
+Proof.
+  intros defs ms l H x Hx. unfold find_items.
+  destruct (find _ ms) as [s0|] eqn:E; [|apply valid_true].
+  apply find_some in E. destruct E as [Hin Hp]. destruct s0; try apply valid_true.
+  specialize (H _ Hin). inversion H; subst; auto; simpl in *; discriminate.
+Qed.
+
+Lemma find_obj_valid : forall defs ms o, (forall s, In s ms -> Valid defs s (JObj o)) ->
+    forall k v s, In (k, v) o -> entry_schema (fst (find_obj ms)) (snd (find_obj ms)) k = Some s -> Valid defs s v.
+Proof.
+  intros defs ms o H k v s Hin He. unfold find_obj in He.
+  destruct (find _ ms) as [s0|] eqn:E; [|simpl in He; discriminate].
+  apply find_some in E. destruct E as [Hi Hp]. destruct s0; simpl in He; try discriminate.
+  specialize (H _ Hi). inversion H; subst; eauto; simpl in *; discriminate.
+Qed.
+
+Lemma find_anyof_valid : forall defs ms l j, find_anyof ms = Some l -> (forall s, In s ms -> Valid defs s j) ->
+                                             exists s, In s l /\ Valid defs s j.
+Proof.
+  intros defs ms l j Hf H. unfold find_anyof in Hf.
+  destruct (find _ ms) as [s0|] eqn:E; [|discriminate].
+  apply find_some in E. destruct E as [Hi Hp]. destruct s0; try discriminate. inversion Hf; subst.
+  specialize (H _ Hi). inversion H; subst; eauto; simpl in *; discriminate.
+Qed.
+
+Lemma has_unique_valid : forall defs ms l, has_unique ms = true -> (forall s, In s ms -> Valid defs s (JArr l)) ->
+                                           uniqueb l = true.
+Proof.
+  intros defs ms l Hu H. unfold has_unique in Hu. apply existsb_exists in Hu. destruct Hu as [s [Hs Hp]].
+  destruct s; try discriminate. specialize (H _ Hs). inversion H; subst. simpl in *. assumption.
+Qed.
+
+Lemma kind_has_type : forall env D v k t, Inh false env D v -> kind_of D = Some k -> type_ok k t = false ->
+                                          has_type t (emit v) = false.
+Proof.
+  intros env D v k t HI HK HT.
+  inversion HI; subst; simpl in HK; try discriminate; injection HK as <-;
+    try (rewrite emit_arr by arr_ne); try rewrite emit_model;
+    destruct t; simpl in *; try discriminate; reflexivity.
+Qed.
+
+Lemma clash_absurd : forall env defs t v ms, Inh false env t v -> clashes (kind_of t) ms = true ->
+                                             (forall s, In s ms -> Valid defs s (emit v)) -> False.
+Proof.
+  intros env defs t v ms HI Hc H. unfold clashes in Hc. destruct (kind_of t) as [k|] eqn:K; [|discriminate].
+  apply existsb_exists in Hc. destruct Hc as [s [Hs Hp]]. destruct s; try discriminate.
+  apply negb_true_iff in Hp. specialize (H _ Hs). inversion H; subst. simpl in *.
+  rewrite (kind_has_type _ _ _ _ _ HI K Hp) in *. discriminate.
+Qed.
+
+Lemma uniq_alias : forall sites n f, f_alias (uniq_field sites n f) = f_alias f.
+Proof. intros. unfold uniq_field. destruct (existsb _ sites); [|reflexivity]. destruct (f_type f); reflexivity. Qed.
+Lemma uniq_required : forall sites n f, f_required (uniq_field sites n f) = f_required f.
+Proof. intros. unfold uniq_field. destruct (existsb _ sites); [|reflexivity]. destruct (f_type f); reflexivity. Qed.
+Lemma uniq_nullable : forall sites n f, f_nullable (uniq_field sites n f) = f_nullable f.
+Proof. intros. unfold uniq_field. destruct (existsb _ sites); [|reflexivity]. destruct (f_type f); reflexivity. Qed.
+
+Lemma find_field_uniq : forall sites n k fs,
+    find_field k (map (uniq_field sites n) fs) = match find_field k fs with Some f => Some (uniq_field sites n f) | None => None end.
+Proof.
+  induction fs as [|f fs IH]; simpl; [reflexivity|]. rewrite uniq_alias.
+  destruct (String.eqb k (f_alias f)); [reflexivity|exact IH].
+Qed.
+
+Lemma assoc_uniq_env : forall sites name env m, assoc name env = Some m ->
+    assoc name (uniq_env sites env) = Some {| m_extra := m_extra m; m_fields := map (uniq_field sites name) (m_fields m) |}.
+Proof.
+  induction env as [|[k m0] e IH]; simpl; intros m H; [discriminate|].
+  destruct (String.eqb name k) eqn:E.
+  - apply String.eqb_eq in E. subst k. inversion H; subst. reflexivity.
+  - apply IH. assumption.
+Qed.
+
+Lemma none_inh : forall z e1 e2 D, Inh z e1 D PNone -> Inh z e2 D PNone.
+Proof.
+  intros z e1 e2 D H. remember PNone as v eqn:Ev. induction H; try discriminate; subst.
+  - apply I_any.
+  - apply I_opt_none.
+  - apply I_opt_some. auto.
+  - eapply I_union; [eassumption|auto].
+Qed.
+
+Section EnfSound.
+Variable sites : list (string * string).
+Variable env : env_t.
+Variable defs : defs_t.
+Let envu := uniq_env sites env.
+
+Lemma leaf_inh_env : forall D v, Inh false env D v ->
+    match D with TStr | TInt | TFloat | TBool | TAny | TEnum _ | TIntC _ _ | TFloatC _ _ | TArr _ | TArrS _ => True
+            | _ => False end ->
+    Inh false envu D v.
+Proof.
+  intros D v HI HD. destruct D; try contradiction; inversion HI; subst; try (constructor; assumption);
+  (constructor; [|assumption]; intros x Hx;
+   match goal with H : forall y, In y _ -> Inh _ _ _ y |- _ => specialize (H x Hx) end;
+   destruct k; simpl in *; match goal with H : Inh _ _ _ x |- _ => inversion H; subst; constructor end).
+Qed.
+
+Theorem enf_sound : forall n D S v, enf sites env defs n D S = true -> Inh false env D v ->
+                                    Valid defs S (emit v) -> Inh false envu D v.
+Proof.
+  induction n as [|n IH]; intros D S v H HI V; [discriminate|]. simpl in H.
+  assert (MV := members_valid defs n S _ V).
+  destruct D; try (apply leaf_inh_env; [assumption|exact I]); try discriminate.
+  - (* TList *)
+    inversion HI; subst. constructor; [|assumption]. intros x Hx. eapply IH; [exact H|auto|].
+    simpl in MV. eapply find_items_valid; [exact MV|]. apply in_map. assumption.
+  - (* TTuple *)
+    inversion HI; subst. constructor. clear HI V MV.
+    match goal with HF : Forall2 _ ts l |- _ => revert H; induction HF as [|t0 x0 ts0 l0 Htx HF' IHF]; intros H; constructor end.
+    + simpl in H. apply andb_true_iff in H. destruct H as [H _]. eapply IH; [exact H|assumption|apply valid_true].
+    + apply IHF. simpl in H. apply andb_true_iff in H. destruct H as [_ H]. exact H.
+  - (* TDict *)
+    inversion HI; subst. constructor. intros k v0 Hin.
+    simpl in MV.
+    assert (OV := find_obj_valid defs _ _ MV).
+    destruct (find_obj (members defs n S)) as [ps ap] eqn:E. simpl in OV.
+    assert (Hv : In (k, emit v0) (map (fun kv => (fst kv, emit (snd kv))) d))
+      by (apply in_map_iff; exists (k, v0); split; [reflexivity|assumption]).
+    destruct ps as [|p ps].
+    + eapply IH; [exact H|eauto|]. destruct ap as [s|]; simpl; [|apply valid_true].
+      eapply OV; [exact Hv|reflexivity].
+    + eapply IH; [exact H|eauto|apply valid_true].
+  - (* TOpt *)
+    inversion HI; subst; [apply I_opt_none|]. apply I_opt_some. eapply IH; eassumption.
+  - (* TUnion *)
+    inversion HI; subst. eapply I_union; [eassumption|].
+    destruct (find_anyof (members defs n S)) as [l|] eqn:E.
+    + destruct (find_anyof_valid defs _ _ _ E MV) as [s [Hs Vs]].
+      rewrite forallb_forall in H. specialize (H _ H1). rewrite forallb_forall in H. specialize (H _ Hs).
+      apply orb_true_iff in H. destruct H as [H|H].
+      * exfalso. eapply clash_absurd; [eassumption|exact H|]. apply members_valid. assumption.
+      * eapply IH; eassumption.
+    + rewrite forallb_forall in H. eapply IH; [apply H; eassumption|assumption|assumption].
+  - (* TModel *)
+    destruct (assoc name env) as [m|] eqn:Em; [|discriminate].
+    inversion HI; subst.
+    match goal with Hm : assoc name env = Some _ |- _ => rewrite Em in Hm; inversion Hm; subst end.
+    rewrite emit_model in *.
+    assert (OV := find_obj_valid defs _ _ MV).
+    destruct (find_obj (members defs n S)) as [ps ap] eqn:E. simpl in OV.
+    rewrite forallb_forall in H.
+    eapply I_model; [apply assoc_uniq_env; exact Em| | |]; simpl.
+    + intros k v0 fu Hin Hfu. rewrite find_field_uniq in Hfu.
+      destruct (find_field k (m_fields m0)) as [f|] eqn:Ef; [|discriminate]. inversion Hfu; subst fu.
+      rewrite uniq_nullable.
+      match goal with Hk : forall k v f, In (k, v) fs -> _ -> _ \/ _ |- _ => destruct (Hk _ _ _ Hin Ef) as [Hn|Hinh] end;
+        [left; assumption|right].
+      destruct (find_field_some _ _ _ Ef) as [Hf1 Hf2]. subst k.
+      specialize (H f Hf1).
+      assert (Vf : is_none v0 = false -> Valid defs (sub_of (entry_schema ps ap (f_alias f))) (emit v0)).
+      { intros Hnn. destruct (entry_schema ps ap (f_alias f)) as [s|] eqn:Es; simpl; [|apply valid_true].
+        eapply OV; [|exact Es]. 
+        clear - Hin Hnn. induction fs as [|[k1 v1] fs IHfs]; simpl in *; [contradiction|].
+        destruct Hin as [Hin|Hin].
+        - inversion Hin; subst. rewrite Hnn. left. reflexivity.
+        - destruct (is_none v1); [auto|right; auto]. }
+      unfold uniq_field. fold (is_site sites name (f_alias f)). 
+      destruct (is_site sites name (f_alias f)) eqn:Site.
+      * destruct (f_type f) eqn:Ft; try discriminate.
+        apply andb_true_iff in H. destruct H as [Hu Hi]. simpl.
+        inversion Hinh; subst.
+        assert (Vl := Vf eq_refl). simpl in Vl.
+        assert (ML := members_valid defs n _ _ Vl).
+        constructor; [|assumption|].
+        -- intros x Hx. eapply IH; [exact Hi|auto|]. eapply find_items_valid; [exact ML|]. apply in_map. assumption.
+        -- eapply has_unique_valid; eassumption.
+      * destruct (is_none v0) eqn:Hn0.
+        -- destruct v0; try discriminate. apply none_inh with (e1 := env). assumption.
+        -- eapply IH; [exact H|assumption|apply Vf; reflexivity].
+    + intros k v0 Hin Hfu. rewrite find_field_uniq in Hfu.
+      destruct (find_field k (m_fields m0)) eqn:Ef; [discriminate|]. eauto.
+    + intros fu Hin Hr. apply in_map_iff in Hin. destruct Hin as [f [<- Hf]].
+      rewrite uniq_alias. rewrite uniq_required in Hr. auto.
+Qed.
+End EnfSound.
+
+Section DiagFacts.
+Variable z : bool.
+Variable env : env_t.
+Variable defs : defs_t.
+Lemma incompat_nil_iff : forall n p D S, incompat z env defs n p D S = [] <-> compat z env defs n D S = true.
+Proof.
+  intros n p D S. destruct n.
+  - simpl. split; discriminate.
+  - unfold incompat; fold (incompat z env defs). destruct (compat z env defs (Datatypes.S n) D S); [split; reflexivity|].
+    destruct (flat_map _ (children z env defs D S)); split; discriminate.
+Qed.
+End DiagFacts.
